@@ -73,6 +73,18 @@ def parseOne : Nat → Bytes → Option (RespVal × Bytes)
             | none => none
             | some (v, buf') => elems k buf' (v :: acc)
         (elems n rest []).map fun (xs, rest') => (.arr xs, rest')
+      else if t == 37 then
+        -- RESP3 map `%n`: n key/value pairs, read as 2n values (HELLO 3 answers one)
+        if !allDigits line then none else
+        let n := digitsVal line
+        let rec pairs (k : Nat) (buf : Bytes) (acc : List RespVal) : Option (List RespVal × Bytes) :=
+          match k with
+          | 0 => some (acc.reverse, buf)
+          | k + 1 =>
+            match parseOne f buf with
+            | none => none
+            | some (v, buf') => pairs k buf' (v :: acc)
+        (pairs (2 * n) rest []).map fun (xs, rest') => (.arr xs, rest')
       else none
 
 /-- a reply is well-formed iff it is exactly one RESP value -/
